@@ -33,6 +33,10 @@ def parseSlot (t : String) : Option Nat :=
 
 def maxT : Nat := 16
 
+def probeQueries : List String :=
+  ["len", "cint", "cflt", "cstr", "hash", "cmp", "asg", "get", "mem", "set", "rem", "push", "pop", "pushat",
+   "popat", "cat", "app", "ref", "iter", "cur", "cast", "size", "fmt", "fmt2", "copy"]
+
 def parseTSlot (t : String) : Option Nat :=
   match parseSlot t with
   | some i => if i < maxT then some i else none
@@ -96,6 +100,18 @@ def parseOp (ws : List String) : Option Op :=
   | ["map", c, k] => do some (.map (← parseSlot c) (← parseInt k))
   | ["gc"] => some .gc
   -- heap-Tuple operations (transcript only): syntax check, exactly as harness/h_cfg.c does it
+  | ["preset", t] => do let i ← parseSlot t; if i < 3 then some .harnessOnly else none
+  | "probe" :: t :: v :: qs => do
+      let i ← parseSlot t
+      let v ← parseInt v
+      if i < 3 && qs.all (fun q => probeQueries.contains q) then
+        (if v < -1000000 || v > 1000000 then some (.flt 0 0) else some .harnessOnly)   -- out of range: refused like `flt _ 0`
+      else none
+  | ["ring", n, sd, m] => do
+      let n ← parseInt n
+      let sd ← parseInt sd
+      let m ← parseInt m
+      if n < 1 || n > 8 || sd < -100000 || sd > 100000 || m < 0 || m > 400 then some (.flt 0 0) else some .harnessOnly
   | ["tcmp", a, b] => do let _ ← parseTSlot a; let _ ← parseTSlot b; some .harnessOnly
   | "tnew" :: t :: ty :: xs => do let _ ← parseTSlot t; let _ ← parseTy ty; let _ ← parseSlots xs; some .harnessOnly
   | "tcat" :: t :: xs => do let _ ← parseTSlot t; let _ ← parseSlots xs; some .harnessOnly
